@@ -69,10 +69,13 @@ class Run:
         self.ignore = ignore                    # callable(stmt) -> True: statement irrelevant to the tracked state, skipped
         self.externs = externs or {}            # name of an external (system) function -> callable(run, call expr, arg values)
         self.recs = {}                          # name -> {field: value}: records reached through ('R', name) references
+        self.transparent = ()                   # record templates whose objects stand for the single value they are built from
+        self.transparent_vars = set()
         self.sinks = {}                         # member name -> buffer name: String members that only receive appended text
         self.elem_size = {}                     # buffer name -> size in bytes of one element (byte-based sizes / offsets are scaled)
         self.objects = objects                  # True: local asl::String / asl::Array objects are modelled as bounds-checked buffers
         self.objlen = {}                        # var id -> element count of a modelled object (locals and registered parameters)
+        self.strobjs = set()                    # ids of modelled objects that are Strings (length = characters before the NUL)
         self.boxed = {}                         # var id -> buffer name (locals whose address was taken)
         self.call_ptrs = call_ptrs or {}        # method name -> pointer value
         self.growable = set(growable)
@@ -341,8 +344,14 @@ class Run:
 
     def obj_of(self, e):
         o = strip_lv(e.get('obj') or {})
+        while o.get('k') in ('temp', 'paren'):
+            o = strip_lv(o['e'])
         if o.get('k') == 'var' and ('O', o.get('id')) in self.bufs:
             return o['id']
+        if o.get('k') == 'call' and self.strobjs and (o.get('op') in ('<<', '+=') or (o.get('fn') or '').split('::')[-1] in ('append', 'operator<<', 'operator+=')):
+            inner = self.obj_of(o)          # q << a << b: the receiver of the outer call is the object of the inner one
+            if inner is not None and inner in self.strobjs:
+                return inner
         return None
 
     def get(self, l):
@@ -682,6 +691,8 @@ class Run:
             return self.libc_printf(e, fn)
         if fn in ('strtoul', 'strtol') and not e.get('clsp') and len(e.get('a', [])) == 3:
             return self.libc_strtoul(e)
+        if e.get('obj') is not None and strip_lv(e['obj']).get('k') == 'var' and strip_lv(e['obj']).get('id') in self.transparent_vars and not e.get('a'):
+            return wrap(self.vars[strip_lv(e['obj'])['id']], T(self.f, e.get('t')))
         if e.get('obj') is not None and self.sinks:
             so = strip_lv(e['obj'])
             while so.get('k') in ('temp', 'paren', 'cast'):
@@ -697,12 +708,40 @@ class Run:
             return self.tmp_call(e, name)
         if e.get('obj') is not None and self.obj_of(e) is not None:
             oid = self.obj_of(e)
+            oe = strip_lv(e['obj'])
+            while oe.get('k') in ('temp', 'paren'):
+                oe = strip_lv(oe['e'])
+            if oe.get('k') == 'call':
+                self.val(oe)            # q << a << b: the inner append runs first (once)
             if e.get('op') == '[]':
                 return self.get(self.lv(e))
             if name in ('data', 'str', 'ptr', 'operator char *', 'operator const char *', 'operator*') and not e.get('a'):
                 return ('P', ('O', oid), 0)
             if name in ('length', 'size') and not e.get('a'):
+                if oid in self.strobjs:
+                    return len(self.bufs[('O', oid)]) - 1
                 return self.objlen[oid]
+            if oid in self.strobjs and (e.get('op') in ('<<', '+=') or name in ('append', 'operator<<', 'operator+=')) and 1 <= len(e.get('a', [])) <= 2:
+                # text appended to a local String: a character, a C string (optionally n characters of it) or another String
+                buf = self.bufs[('O', oid)]
+                a0 = e['a'][0]
+                v = self.val(a0)
+                at = T(self.f, strip_lv(a0).get('t'))
+                if isinstance(v, tuple) and v[0] == 'P':
+                    if len(e['a']) == 2:
+                        cnt = self.val(e['a'][1])
+                        if not isinstance(cnt, int):
+                            raise Unsupported('`%s`' % pe(e))
+                        chars = [self.load(('P', v[1], v[2] + j), e.get('l')) for j in range(max(cnt, 0))]
+                    else:
+                        chars = self.cstring(v, e.get('l'))
+                elif isinstance(v, int) and len(e['a']) == 1 and (at.get('bits') == 8 or strip(a0).get('chr')):
+                    chars = [v]
+                else:
+                    raise Unsupported('`%s` appends something that is neither a character nor a string' % pe(e))
+                buf[len(buf) - 1:len(buf) - 1] = chars
+                self.objlen[oid] = len(buf) - 1
+                return ('P', ('O', oid), 0) if False else ('OBJ', oid)
             raise Unsupported('member call `%s` on a modelled object' % pe(e))
         if e.get('obj') is not None or e.get('clsp'):
             if name in self.call_ptrs and not e.get('a'):
@@ -719,6 +758,7 @@ class Run:
                     raise Unsupported('method %s has no body' % fn)
                 g = cands[0]
                 sub = Run(self.prog, g, self.bufs, depth=self.depth + 1, budget=self.budget, growable=self.growable, mems=self.mems, methods=self.methods, ignore=self.ignore, call_ptrs=self.call_ptrs, externs=self.externs)
+                sub.transparent = self.transparent
                 for p_, a in zip(g['params'], args):
                     sub.vars[p_['id']] = wrap(a, T(g, p_['t']))
                 return sub.run()
@@ -729,8 +769,17 @@ class Run:
         if not cands:
             raise Unsupported('call of %s' % fn)
         g = cands[0]
-        sub = Run(self.prog, g, self.bufs, depth=self.depth + 1, budget=self.budget, growable=self.growable, externs=self.externs)
+        sub = Run(self.prog, g, self.bufs, depth=self.depth + 1, budget=self.budget, growable=self.growable, externs=self.externs, objects=self.objects)
+        sub.transparent = self.transparent
         for p_, a in zip(g['params'], e.get('a', [])):
+            ao = strip_lv(a)
+            if self.objects and ao.get('k') == 'var' and ('O', ao.get('id')) in self.bufs and T(g, p_['t']).get('ref'):
+                # a modelled object passed by reference: the parameter names the same object
+                self.bufs[('O', p_['id'])] = self.bufs[('O', ao['id'])]
+                sub.objlen[p_['id']] = self.objlen.get(ao['id'], 0)
+                if ao['id'] in self.strobjs:
+                    sub.strobjs.add(p_['id'])
+                continue
             sub.vars[p_['id']] = wrap(self.val(a), T(g, p_['t']))
         return sub.run()
 
@@ -748,6 +797,25 @@ class Run:
                 for j, b in enumerate(ini['b'][:tv['n']]):
                     self.bufs[name][j] = b
             return
+        if (tv.get('recp') or '') in self.transparent or (tv.get('rec') or '').split('<')[0] in self.transparent:
+            # a bit-reinterpreting wrapper (AsOther<A, B>): the object stands for the value it was built from
+            ini = strip(v.get('init') or {})
+            if ini.get('k') == 'construct' and len(ini.get('a', [])) == 1:
+                self.vars[v['id']] = self.val(ini['a'][0])
+                self.transparent_vars.add(v['id'])
+                return
+            raise Unsupported('local %s of type %s' % (v['n'], tv.get('s')))
+        if self.objects and tv.get('ref') and v.get('init') is not None:
+            io = strip_lv(v['init'])
+            while io.get('k') in ('cast', 'temp', 'paren'):
+                io = strip_lv(io['e'])
+            if io.get('k') == 'var' and ('O', io.get('id')) in self.bufs:
+                # a local reference to a modelled object names the same object
+                self.bufs[('O', v['id'])] = self.bufs[('O', io['id'])]
+                self.objlen[v['id']] = self.objlen.get(io['id'], 0)
+                if io['id'] in self.strobjs:
+                    self.strobjs.add(v['id'])
+                return
         if self.objects and (tv.get('rec') == 'asl::String' or tv.get('recp') == 'asl::Array'):
             # a local string / array constructed with a length: a zero-filled buffer of that many elements (+1: the NUL
             # of a String), bounds-checked like any other buffer
@@ -759,6 +827,8 @@ class Run:
                     name = ('O', v['id'])
                     self.bufs[name] = [0] * (n_ + (1 if tv.get('rec') == 'asl::String' else 0))
                     self.objlen[v['id']] = n_
+                    if tv.get('rec') == 'asl::String':
+                        self.strobjs.add(v['id'])
                     return
             raise Unsupported('local %s of type %s' % (v['n'], tv.get('s')))
         if v.get('init') is None:
